@@ -16,6 +16,7 @@ import time
 VERIF = os.path.dirname(os.path.dirname(os.path.abspath(__file__)))
 SEEDED = os.path.join(VERIF, "seeded")
 PY = "/venv/bin/python"
+REPO = os.environ.get("VERIF_REPO", "/repo")     # the matrix can run on a scratch copy of /verif against a scratch worktree
 SCRATCH = "/tmp/seedcheck-wt"
 
 
@@ -76,10 +77,10 @@ def cmd_import(outdir, prop, n, dest=None):
 
 def run_checks(sid, checks):
     patch = os.path.join(SEEDED, sid, "patch.diff")
-    rc, out = sh("git -C /repo status --short")
+    rc, out = sh("git -C %s status --short" % REPO)
     if out.strip():
-        raise SystemExit("/repo is not clean: " + out)
-    rc, out = sh("git -C /repo apply %s" % patch)
+        raise SystemExit("%s is not clean: %s" % (REPO, out))
+    rc, out = sh("git -C %s apply %s" % (REPO, patch))
     if rc != 0:
         return {"error": "patch does not apply to /repo: " + out[-200:]}
     res = {}
@@ -100,7 +101,7 @@ def run_checks(sid, checks):
             out, _ = p.communicate()
             res[c2] = summarise(p.returncode, out)
     finally:
-        sh("git -C /repo checkout -- .")
+        sh("git -C %s checkout -- ." % REPO)
     return res
 
 
